@@ -163,6 +163,10 @@ Definition to_df_input (tf : tframe) : option (dframe * option (list val) * list
 Definition to_catboost_input := to_df_input.             (* cat_features as an ndarray *)
 Definition to_lightgbm_input := to_df_input.             (* cat_features as a list *)
 
+(* the adapters on a frame given by its dictionary *)
+Definition on_dict {R} (adapter : tframe -> option R) (d : feat_dict) (y : option (list val)) : option R :=
+  match frame_of_dict d y with Some tf => adapter tf | None => None end.
+
 (* ---------------------------------------------------------------- metric selection (GBDT.__init__) *)
 (* None = the constructor raises (KeyError for a task without default, ValueError
    for an unsupported metric) *)
